@@ -481,9 +481,12 @@ class Gen:
             self.stat("apply")
             return A("apply", V(r.choice(["+", "*", "max"])), self.expr("int", d - 1, env), self.expr("ilist", d - 1, env)) \
                 if r.random() < 0.5 else A("apply", V("+"), self.expr("ilist", d - 1, env))
-        if k < 0.93:
+        if k < 0.90:
             self.stat("closure-counter")
             return self.counter(d, env)
+        if k < 0.93:
+            self.stat("overflow-loop")
+            return self.overflow_loop(d, env)
         if k < 0.95:
             return A("vector-ref", A("vector", *[self.expr("int", d - 2, env) for _ in range(3)]), I(r.randint(0, 2)))
         k2 = r.random()
@@ -516,6 +519,21 @@ class Gen:
         return ("let", [(mk, ("lam", [c], None, [("lam", [], None, [("set", c, A("+", V(c), I(1))), V(c)])]))],
                 [("let", [(a, A(mk, self.expr("int", d - 2, env))), (b, A(mk, I(100)))],
                   [A("+", A(a), A(a), A(b), A(a))])])
+
+    def overflow_loop(self, d, env):
+        """A counted loop whose accumulator crosses the fixnum / bignum boundary (native-code deopt paths)."""
+        r = self.rng
+        lp, i, acc = self.fresh("loop"), self.fresh("i"), self.fresh("acc")
+        start = r.choice([1, 3, 2**31 - 1, 2**62, 2**63 - 2, -2**63 + 1, 10**18])
+        op = r.choice(["+", "*", "-"])
+        k = r.choice([2, 3, 2**31, 2**62, 10**9, -7])
+        n = r.choice([2, 3, 5, 8])
+        cmp_ = r.choice([None, None, "<", ">", "="])
+        body = A(lp, A("-", V(i), I(1)), A(op, V(acc), I(k)))
+        if cmp_:
+            body = ("if", A(cmp_, V(acc), I(r.choice([2**63 - 1, 2**63, 0, -2**63]))), body,
+                    A(lp, A("-", V(i), I(1)), A("+", V(acc), I(1))))
+        return ("nlet", lp, [(i, I(n)), (acc, I(start))], [("if", A("<=", V(i), I(0)), V(acc), body)])
 
     def counter(self, d, env):
         """A closure capturing and mutating a local variable, called several times."""
